@@ -15,7 +15,8 @@ LEVEL_TEXT = ("Clause-level static rules: every add_safe / UNREACH site of the a
               "proved only under an empty refined precondition at a dominating block (or at the entry) and resets its per-run "
               "tables at the start of every run; the inter-procedural checker runs only on stabilised components and relies on the "
               "formal/actual discipline of the call continuation. Soundness of the invariants themselves (C01/C09/C11) and of each "
-              "domain's entails() (C03) is NOT decided here.")
+              "domain's entails() (C03) is NOT decided here."
+              " Each property checker re-seeds the shared transformer inside the loop over the checkers (intra and inter checker); a stored calling context answers an entry only if computed from a precondition that includes it (known finding F14c); the forward+backward analyzer publishes reachability invariants only (known finding F83: use_refined_invariants).")
 ASSUMPTIONS = ["the invariants handed to the checker are sound (C01, C09, C10, C11)", "domain entails()/is_bottom() are sound (C03/C04)"]
 
 ASRT = "include/crab/checkers/assertion.hpp"
@@ -461,3 +462,12 @@ def r10_published_invariants(ctx):
 
 
 RULES += [r10_published_invariants]
+
+
+def r11_continuation_sorted_search(ctx):
+    # same rule instance as C09.r14, reported under this property: a re-defined argument that the search misses makes the
+    # interleaved checker judge the assertions after the call on stale values
+    C09.r14_sorted_search(ctx, rid="C02.r11")
+
+
+RULES += [r11_continuation_sorted_search]
